@@ -660,8 +660,11 @@ func (e *Exec) checkAssert(c *Term, label string) {
 			hr.mu.Unlock()
 			return
 		}
-		e.reportViolation("assert", label, "assertion is constant false on this path")
-		panic(abortf("STOP after violated assertion"))
+		if len(e.Cfg.Known[label]) == 0 {
+			e.reportViolation("assert", label, "assertion is constant false on this path")
+			panic(abortf("STOP after violated assertion"))
+		}
+		// known-finding regions apply: decide region / non-region on the path condition below
 	}
 	e.Solver.emit(c)
 	e.Solver.Push()
@@ -710,6 +713,9 @@ func (e *Exec) checkAssert(c *Term, label string) {
 	}
 	e.Solver.Pop()
 	// continue under the assumption that the assertion holds
+	if c.IsConst() && !c.B {
+		panic(abortf("STOP after violated assertion"))
+	}
 	e.Solver.Assert(c)
 	if r == RSat || len(e.Cfg.Known[label]) > 0 {
 		if e.Solver.Check() == RUnsat {
